@@ -28,6 +28,14 @@ def run_case(rng, tier, case):
         case.feature('split:' + split)
     for t in gen.asset_types(spec):
         case.feature('type:' + t)
+    structs = [a for a in spec['assets'] if a['type'] == 'StructuredAsset']
+    if structs and rng.random() < 0.4:
+        # names only have to be unique within one portfolio: an outer asset carries the name of an asset wrapped inside a structured asset
+        inner = gen.pick(rng, structs[0]['assets'])['name']
+        outer = [a for a in spec['assets'] if a['type'] not in ('StructuredAsset', 'LinkedAsset', 'ScaledAsset') and not a['name'].startswith('mkt')]
+        if outer:
+            gen.pick(rng, outer)['name'] = inner
+            case.feature('outer_asset_named_like_wrapped_asset')
     case.key = env.spec_key(gen.strip_private(spec)); case.sample = dict(gen.abbreviate(spec), split=split); case.spec = spec
     one_call = rng.random() < 0.2          # a fifth of the cases go through the documented shortcut eaopack.io.optimize
     if one_call:
@@ -39,5 +47,21 @@ def run_case(rng, tier, case):
         case.inconc('not solved: ' + str(r.res)); return
     setups = flow.top_setups(r.rec)
     nt = mon_value_accounting(case, r.built.portfolio, r.res, r.out, setups, r.built.timegrid.T)
+    if not split and not gen.is_mip(spec) and rng.random() < 0.25:
+        # "every optimised portfolio": the robust target (spelled as users spell it) on the same problem object, extracted the same way
+        import eaopack.io as eio
+        try:
+            with env.quiet():
+                P = r.built.portfolio
+                scen = [{k: np.asarray(v, float) for k, v in gen.gen_prices(rng, r.built.timegrid.T, sorted(spec['prices']), cap_levels=spec.get('_cap_levels')).items()} for _ in range(2)]
+                cs = P.create_cost_samples(scen, r.built.timegrid)
+                tname = gen.pick(rng, ['robust', 'Robust', 'ROBUST'])
+                res_r = r.op.optimize(target=tname, samples=cs)
+                out_r = None if isinstance(res_r, str) else eio.extract_output(P, r.op, res_r, r.built.prices)
+            if out_r is not None:
+                case.feature('target:' + tname)
+                mon_value_accounting(case, P, res_r, out_r, setups, r.built.timegrid.T)
+        except Exception as e:
+            case.check('value.robust_run_works', False, error='%s: %s' % (type(e).__name__, str(e)[:160]))
     case.event('portfolio_setup', len(setups)); case.event('asset_setup', r.rec.counts['asset_setup']); case.event('extract', r.rec.counts['extract'])
     case.nontrivial = bool(nt)
